@@ -208,6 +208,22 @@ Theorem C07_lump_SIR_heterogeneous_pairwise_regular : forall S I SS SI k tau gam
   veq (dSIR_heterogeneous_pairwise [S; I; SS; SI] tau gamma [k] t) [vnth 0 small; vnth 1 small; vnth 3 small; vnth 2 small].
 Proof. exact hpSIR_single_class. Qed.
 
+(* (c') the same single class against compact pairwise on the classes 0..k (only class k occupied): composition of (c) with
+   C07_lump_SIS/SIR_compact_pairwise_regular.  SIR: compact pairwise carries R, heterogeneous pairwise I; with I = N - S - R
+   the R-component is -(dS + dI) of the heterogeneous system *)
+Theorem C07_lump_SIS_heterogeneous_to_compact_pairwise_regular : forall kk s SI SS N t tau g,
+  ~ Qnat kk == 0 -> ~ s == 0 ->
+  let hp := dSIS_heterogeneous_pairwise [s; SS; SI] [N] [N * Qnat kk] tau g [Qnat kk] t in
+  veq (dSIS_compact_pairwise (unitv kk s ++ [SI; SS]) t (unitv kk N) (N * Qnat kk) tau g)
+      (unitv kk (vnth 0 hp) ++ [vnth 2 hp; vnth 1 hp]).
+Proof. exact hp_to_compact_SIS. Qed.
+Theorem C07_lump_SIR_heterogeneous_to_compact_pairwise_regular : forall kk s SS SI R N t tau g,
+  ~ Qnat kk == 0 -> ~ s == 0 ->
+  let hp := dSIR_heterogeneous_pairwise [s; N - s - R; SS; SI] tau g [Qnat kk] t in
+  veq (dSIR_compact_pairwise (unitv kk s ++ [SS; SI; R]) t N tau g)
+      (unitv kk (vnth 0 hp) ++ [vnth 2 hp; vnth 3 hp; - (vnth 0 hp + vnth 1 hp)]).
+Proof. exact hp_to_compact_SIR. Qed.
+
 (* ---- non-vacuity: the triangle is 2-regular, carries symmetric states, and the field there is not zero ---- *)
 Example C07_nonvacuous_regular_graph :
   pb_regularb tri_graph tri_nodes tri_idx 2 = true /\ ib_regularb tri_graph tri_nodes tri_idx 2 = true /\
@@ -226,6 +242,8 @@ Print Assumptions C07_lump_SIR_pair_based_regular.
 Print Assumptions C07_lump_SIS_pair_based_regular.
 Print Assumptions C07_lump_SIS_heterogeneous_pairwise_regular.
 Print Assumptions C07_lump_SIR_heterogeneous_pairwise_regular.
+Print Assumptions C07_lump_SIS_heterogeneous_to_compact_pairwise_regular.
+Print Assumptions C07_lump_SIR_heterogeneous_to_compact_pairwise_regular.
 Print Assumptions C07_nonvacuous_regular_graph.
 
 (* ====================================================================== *)
